@@ -1,0 +1,39 @@
+// Copyright 2025 The Go MCP SDK Authors. All rights reserved.
+// Use of this source code is governed by an MIT-style
+// license that can be found in the LICENSE file.
+
+//go:build verif
+
+// Contracts for the verification framework in /verif (comment-only; see /verif/DESIGN.md).
+// This file declares nothing and is compiled only with -tags verif.
+
+package auth
+
+//@ pred wellFormed(h string) := nfields(h) == 2 && lower(field(h, 0)) == "bearer"
+//@ pred scopesOK(o *RequireBearerTokenOptions, ti *TokenInfo) :=
+//@      o == nil || forall j int :: 0 <= j && j < len(o.Scopes) ==> has(ti.Scopes, o.Scopes[j])
+//@ fun skewOf(o *RequireBearerTokenOptions) time.Duration := o == nil ? 0 : o.ClockSkew
+//@ pred allowMissing(o *RequireBearerTokenOptions) := o != nil && o.AllowMissingExpiration
+//@ pred freshTok(o *RequireBearerTokenOptions, ti *TokenInfo, now time.Time) :=
+//@      isZeroTime(ti.Expiration) ? allowMissing(o) : !timeBefore(timeAdd(ti.Expiration, skewOf(o)), now)
+//@ fun statusFor(wf bool, ve error, ti *TokenInfo, sc bool) int :=
+//@      !wf ? 401 : (ve != nil ? (errIs(ve, ErrInvalidToken) ? 401 : (errIs(ve, ErrOAuth) ? 400 : 500)) : (ti == nil ? 500 : (!sc ? 403 : 401)))
+
+// C14: the request is admitted (code 0) iff the header is a well-formed Bearer credential, the verifier
+// accepts it, every required scope is present and the token is unexpired within the skew (or may lack an
+// expiration); the verifier runs at most once and only on a well-formed header with the presented token.
+//@ func verify [C14]
+//@   track verifier
+//@   track time.Now as now
+//@   ghost h := old(hdrGet(req.Header, "Authorization"))
+//@   ghost ti := callResult(verifier, 1, 0)
+//@   ghost ve := callResult(verifier, 1, 1)
+//@   ghost tnow := callResult(now, 1, 0)
+//@   nopanic
+//@   requires req != nil
+//@   ensures @verifier-at-most-once calls(verifier) <= 1
+//@   ensures @verifier-only-on-wellformed calls(verifier) == 1 ==> wellFormed(h) && callArg(verifier, 1, 1) == field(h, 1)
+//@   ensures @admit-iff result.2 == 0 <==> (wellFormed(h) && ve == nil && ti != nil && scopesOK(opts, ti) && freshTok(opts, ti, tnow))
+//@   ensures @admit-info result.2 == 0 ==> result.0 == ti && result.1 == ""
+//@   ensures @reject-status result.2 != 0 ==> result.0 == nil && result.2 == statusFor(wellFormed(h), ve, ti, scopesOK(opts, ti))
+//@   loop 1: invariant forall j int :: 0 <= j && j < $idx ==> has(ti.Scopes, opts.Scopes[j])
